@@ -155,20 +155,22 @@ def run_cli(cwd, args):
     return rc, restored[0], restored[1]
 
 
-def scenario(inst, shape, input_abs, failing, family='plain'):
+def scenario(inst, shape, input_abs, failing, family='plain', start='same'):
     """one run of every entry point in a fresh real tree; returns list of (obligation, ok, detail)."""
     A, B, C = inst['A'], inst['B'], inst['C']
     root = os.path.realpath(tempfile.mkdtemp(prefix='symx_c20_'))
     res = []
     try:
-        work = os.path.join(root, 'w')            # the caller's cwd
+        work = os.path.join(root, 'w')            # where the input file lives
         os.makedirs(work, exist_ok=True)
+        # the caller's working directory: the input's directory, or its parent (the input is then named with a relative directory part)
+        cwd_dir = work if start == 'same' else root
         if 'dotdir' in shape:
-            os.makedirs(os.path.join(work, '.' + A), exist_ok=True)
+            os.makedirs(os.path.join(cwd_dir, '.' + A), exist_ok=True)
         elif 'dirdot' in shape and not shape.startswith('abs'):
-            os.makedirs(os.path.join(work, f'{A}.{C}'), exist_ok=True)
+            os.makedirs(os.path.join(cwd_dir, f'{A}.{C}'), exist_ok=True)
         elif 'dir' in shape and not shape.startswith('abs'):
-            os.makedirs(os.path.join(work, A), exist_ok=True)
+            os.makedirs(os.path.join(cwd_dir, A), exist_ok=True)
         absdir = os.path.join(root, 'abs', A)
         os.makedirs(absdir, exist_ok=True)
         absdirdot = os.path.join(root, 'abs', f'{A}.{C}')
@@ -176,18 +178,18 @@ def scenario(inst, shape, input_abs, failing, family='plain'):
         inp_rel = 'in_' + B + '.txt'
         with open(os.path.join(work, inp_rel), 'w') as f:
             f.write((BAD if failing else GOOD) + FAMILIES[family])
-        inp_arg = os.path.join(work, inp_rel) if input_abs else inp_rel
+        inp_arg = os.path.join(work, inp_rel) if input_abs else (inp_rel if start == 'same' else os.path.join('w', inp_rel))
         name, name_noext = f'{B}.{C}', B
         out_arg = {'none': None, 'rel-file': name, 'rel-file-noext': name_noext, 'rel-dir-file': f'{A}/{name}', 'rel-dir-file-noext': f'{A}/{name_noext}',
                    'abs-dir-file': os.path.join(absdir, name), 'rel-dotdir-file': f'.{A}/{name}',
                    'rel-dirdot-file-noext': f'{A}.{C}/{name_noext}', 'abs-dirdot-file-noext': os.path.join(absdirdot, name_noext),
                    'rel-dirdot-file': f'{A}.{C}/{name}'}[shape]
-        expected_report = os.path.join(work, 'HDR.out') if out_arg is None else (out_arg if os.path.isabs(out_arg) else os.path.join(work, out_arg))
+        expected_report = os.path.join(cwd_dir, 'HDR.out') if out_arg is None else (out_arg if os.path.isabs(out_arg) else os.path.join(cwd_dir, out_arg))
         er = Path(expected_report)
-        expected_json = str(er.with_name(er.stem + '.json')) if out_arg is not None else os.path.join(work, 'HDR.json')
+        expected_json = str(er.with_name(er.stem + '.json')) if out_arg is not None else os.path.join(cwd_dir, 'HDR.json')
         before = tree(root)
         pkg_before = tree_stat(PKG_DIR)
-        rc, cwd_ok, argv_ok = run_cli(work, [inp_arg] + ([out_arg] if out_arg is not None else []))
+        rc, cwd_ok, argv_ok = run_cli(cwd_dir, [inp_arg] + ([out_arg] if out_arg is not None else []))
         created = tree(root) - before
         pkg_after = tree_stat(PKG_DIR)
         stray = sorted(f for f, st in pkg_after.items() if pkg_before.get(f) != st and '__pycache__' not in f and not f.endswith('.pyc'))
@@ -264,7 +266,7 @@ def scenario(inst, shape, input_abs, failing, family='plain'):
                             {'first difference': _first_diff(cli_text, direct_text)}))
             finally:
                 os.chdir(cwd0)
-        return res, {'cwd': 'w', 'input_arg': inp_arg if not input_abs else '<abs>/' + inp_rel, 'output_arg': out_arg if out_arg is None or not os.path.isabs(out_arg) else '<abs>/' + A + '/' + name}
+        return res, {'cwd': 'w' if start == 'same' else '. (parent of the input directory)', 'input_arg': inp_arg if not input_abs else '<abs>/' + inp_rel, 'output_arg': out_arg if out_arg is None or not os.path.isabs(out_arg) else '<abs>/' + A + '/' + name}
     finally:
         shutil.rmtree(root, ignore_errors=True)
 
@@ -277,7 +279,7 @@ def _first_diff(a, b):
 
 
 def units(tier, seed):
-    pats, _ = patterns()
+    pats, _ = patterns(3 if tier == 'thorough' else 2)
     us = []
     for i in range(len(pats)):
         us.append({'pattern_index': i})
@@ -287,8 +289,8 @@ def units(tier, seed):
 _PATS = None
 
 
-def run_one(log, cfg, inst, shape, input_abs, failing, family):
-    obs, desc = scenario(inst, shape, input_abs, failing, family)
+def run_one(log, cfg, inst, shape, input_abs, failing, family, start='same'):
+    obs, desc = scenario(inst, shape, input_abs, failing, family, start)
     log['paths'] += 1
     log['reachable'] += 1
     for name, ok, detail in obs:
@@ -296,7 +298,7 @@ def run_one(log, cfg, inst, shape, input_abs, failing, family):
         if ok:
             log['discharged'] += 1
             continue
-        log['cex'].append({'obligation': name, 'finding': None, 'config': dict(cfg, shape=shape, input_abs=input_abs, failing=failing, family=family),
+        log['cex'].append({'obligation': name, 'finding': None, 'config': dict(cfg, shape=shape, input_abs=input_abs, failing=failing, family=family, start=start),
                            'reproduced': True, 'inputs': dict(desc, names=inst), 'detail': detail, 'how': 'native run of the real entry points on the pattern witness',
                            'attempts': []})
 
@@ -304,7 +306,7 @@ def run_one(log, cfg, inst, shape, input_abs, failing, family):
 def run_unit(unit):
     global _PATS
     if _PATS is None:
-        _PATS = patterns()
+        _PATS = patterns(3 if unit['tier'] == 'thorough' else 2)
     pats, nq = _PATS
     pat, inst = pats[unit['pattern_index']]
     cfg = {'pattern': {k: v for k, v in pat.items() if v}, 'instance': inst}
@@ -319,6 +321,8 @@ def run_unit(unit):
                 fams = ['plain'] if (failing or input_abs or (unit['tier'] == 'quick' and shape not in ('none', 'rel-file', 'abs-dir-file'))) else list(FAMILIES)
                 for family in fams:
                     run_one(log, cfg, inst, shape, input_abs, failing, family)
+                if not input_abs and (unit['tier'] == 'thorough' or shape in ('none', 'rel-file', 'rel-dir-file-noext')):
+                    run_one(log, cfg, inst, shape, input_abs, failing, 'plain', start='parent')
     if len(log['samples']) < 1:
         log['samples'].append({'pattern': cfg['pattern'], 'instance': inst, 'shapes': SHAPES})
     yield log.result()
@@ -326,6 +330,6 @@ def run_unit(unit):
 
 def replay(cex):
     cfg = cex['config']
-    obs, desc = scenario(cfg['instance'], cfg['shape'], cfg['input_abs'], cfg['failing'], cfg.get('family', 'plain'))
+    obs, desc = scenario(cfg['instance'], cfg['shape'], cfg['input_abs'], cfg['failing'], cfg.get('family', 'plain'), cfg.get('start', 'same'))
     bad = [(n, d) for n, ok, d in obs if not ok]
     return bool(bad), {'failed': bad[:5]}
